@@ -237,58 +237,37 @@ func (x *lcX) shapes(armNames []string, label string) string {
 	// --- event loop
 	var gotos []string
 	ast.Inspect(rs.Body, func(m ast.Node) bool {
-		if br, ok := m.(*ast.BranchStmt); ok && br.Tok == token.GOTO && br.Label != nil {
-			gotos = append(gotos, br.Label.Name)
+		if br, ok := m.(*ast.BranchStmt); ok && br.Label != nil {
+			switch {
+			case br.Tok == token.GOTO:
+				gotos = append(gotos, br.Label.Name)
+			case br.Tok == token.BREAK && x.loopLabel != "" && br.Label.Name == x.loopLabel:
+				gotos = append(gotos, "after "+x.loopLabel) // same control flow as goto <label after the loop>
+			}
 		}
 		return true
 	})
 	sort.Strings(gotos)
 	gotos = lcDedup(gotos)
-	// what each arm waits for, by structure: the channel the serving goroutine sends its error to, a channel that comes
-	// from setupReloadSignal(), Done() of a context
+	// what each arm waits for, by structure: the channel the serving goroutine sends its error to, Done() of a context,
+	// any other channel (which of them reloads is the business of the arm *roles*, read off the arm bodies)
 	sendTo := map[string]bool{}
-	sigCh := map[string]bool{}
 	ast.Inspect(rs.Body, func(m ast.Node) bool {
-		switch v := m.(type) {
-		case *ast.SendStmt:
+		if v, ok := m.(*ast.SendStmt); ok {
 			if id, ok := v.Chan.(*ast.Ident); ok {
 				sendTo[id.Name] = true
-			}
-		case *ast.AssignStmt:
-			if len(v.Rhs) == 1 && len(v.Lhs) >= 1 {
-				if c, ok := v.Rhs[0].(*ast.CallExpr); ok {
-					if n, _ := lcCalleeOf(c); n == "setupReloadSignal" {
-						if id, ok := v.Lhs[0].(*ast.Ident); ok {
-							sigCh[id.Name] = true
-						}
-					}
-				}
 			}
 		}
 		return true
 	})
-	for changed := true; changed; {
-		changed = false
-		ast.Inspect(rs.Body, func(m ast.Node) bool {
-			if v, ok := m.(*ast.AssignStmt); ok && len(v.Rhs) == 1 && len(v.Lhs) == 1 {
-				l, ok1 := v.Lhs[0].(*ast.Ident)
-				r, ok2 := v.Rhs[0].(*ast.Ident)
-				if ok1 && ok2 && sigCh[r.Name] && !sigCh[l.Name] {
-					sigCh[l.Name] = true
-					changed = true
-				}
-			}
-			return true
-		})
-	}
 	for i, n := range armNames {
 		switch {
 		case sendTo[n]:
 			armNames[i] = "serveError"
-		case sigCh[n]:
-			armNames[i] = "reloadSignal"
 		case strings.HasSuffix(n, ".Done()"):
 			armNames[i] = "ctxDone"
+		case n != "default" && n != "?":
+			armNames[i] = "chan"
 		}
 	}
 	fmt.Fprintf(&b, "def loopShape : LoopShape :=\n  { armChans := %s, label := %s, gotoTargets := %s }\n\n", lcStrList(armNames), leanStr(label), lcStrList(gotos))
@@ -402,6 +381,10 @@ func (x *lcX) shapes(armNames []string, label string) string {
 	seenLabel := false
 	for _, s := range rs.Body.List {
 		if ls, ok := s.(*ast.LabeledStmt); ok {
+			if isFor(ls.Stmt) {
+				seenLabel = true // the labelled event loop itself: what follows is the shutdown sequence
+				continue
+			}
 			seenLabel = true
 			s = ls.Stmt
 		}
